@@ -209,11 +209,17 @@ pub fn client_core_data(parameter: Option<ClientData>) -> Component {
             name: "".to_string()
         });
 
-    let client_name = if client_parameter.name.len() >= 16 {
-        (&client_parameter.name[0..16]).to_string()
-    } else {
-        client_parameter.name.clone() + &"\x00".repeat(16 - client_parameter.name.len())
-    };
+    // clientName is a fixed field of 32 bytes :
+    // up to 15 UTF-16 code units followed by a null terminator
+    let mut client_name_units: Vec<u16> = client_parameter.name.encode_utf16().take(15).collect();
+    if let Some(last) = client_name_units.last() {
+        // never keep the first half of a surrogate pair
+        if *last >= 0xD800 && *last < 0xDC00 {
+            client_name_units.pop();
+        }
+    }
+    client_name_units.resize(16, 0);
+    let client_name = String::from_utf16_lossy(&client_name_units);
 
     component![
         "version" => U32::LE(client_parameter.rdp_version as u32),
